@@ -129,10 +129,16 @@ static int cmd_record(int argc, char **argv) {
     r = g_heavy ? 50 + d_rn(50) : d_rn(100);   /* heavy: automatic flushes and compactions only */
     if (r < 7) { rc = ldb_test_compact_memtable(db); note_fault(); sprintf(mark, "flush %d", rc); io_shim_mark(mark); }
     else if (r < 11) { ldb_test_compact_range(db, d_rn(3), NULL, NULL); note_fault(); io_shim_mark("compact 0"); }
-    else if (r < (getenv("CRASH_REOPEN") != NULL ? 26 : 13) && !faulting) {   /* CRASH_REOPEN: frequent reopen cycles (a recovery rewrites the MANIFEST, switches CURRENT and removes the old logs) */
+    else if (r < (getenv("CRASH_REOPEN") != NULL ? 26 : 13) && (!faulting || getenv("FAULT_REOPEN") != NULL)) {   /* CRASH_REOPEN: frequent reopen cycles (a recovery rewrites the MANIFEST, switches CURRENT and removes the old logs) */
       ldb_close(db); io_shim_mark("closed 0");
-      rc = ldb_open(dbdir, &O.o, &db); sprintf(mark, "opened %d", rc); io_shim_mark(mark);
-      if (rc != 0) { io_shim_journal(NULL); return 4; }
+      rc = ldb_open(dbdir, &O.o, &db); note_fault(); sprintf(mark, "opened %d", rc); io_shim_mark(mark);
+      if (rc != 0 && faulting) {
+        /* FAULT_REOPEN: the open itself met the injected failure and reported it; once the fault has cleared the database must open
+           again with everything that was acknowledged */
+        io_shim_clear(); io_shim_mark("cleared 0");
+        rc = ldb_open(dbdir, &O.o, &db); sprintf(mark, "opened %d", rc); io_shim_mark(mark);
+        if (rc != 0) { io_shim_mark("end 0"); io_shim_journal(NULL); return 0; }    /* the directory is checked by the recovery step that follows */
+      } else if (rc != 0) { io_shim_journal(NULL); return 4; }
     }
     if (getenv("CRASH_RACE") != NULL && b % 7 == 3 && b + 3 <= nb) {
       /* steer the schedule: park a manual compaction right after its last output file is finished (delay point 21),
